@@ -130,6 +130,9 @@ def _worker_run(args):
     _SEEN_LINES.clear()
     cross = dict(smt.CROSS)
     smt.CROSS.update(done=0, agree=0, disagree=0, cvc5_unknown=0, log=[])
+    cross["ratnorm"] = dict(smt.RATNORM)
+    for k in smt.RATNORM:
+        smt.RATNORM[k] = 0
     return idx, res, sym.STATS.as_dict(), funcs, lines, time.perf_counter() - t0, cross
 
 
@@ -227,6 +230,7 @@ def main(argv=None):
     funcs: set = set()
     lines: set = set()
     cross = dict(done=0, agree=0, disagree=0, cvc5_unknown=0)
+    ratn = {}
     cross_logs = []
     slow = []
     with ctx.Pool(a.jobs, initializer=_worker_init, initargs=(modname, tier, seed, a.lines)) as pool:
@@ -242,6 +246,8 @@ def main(argv=None):
             lines.update(tuple(x) for x in ls)
             for k in cross:
                 cross[k] += cr.get(k, 0)
+            for k, v in cr.get("ratnorm", {}).items():
+                ratn[k] = ratn.get(k, 0) + v
             cross_logs.extend(cr.get("log", []))
             slow.append((dt, idx))
 
@@ -353,6 +359,7 @@ def main(argv=None):
             "branch_solver_time_s": round(agg["branch_time_s"], 2),
             "path_budget_truncations": agg["truncated"],
             "cvc5_cross_checks": cross,
+            "denominator_clearing_prepass": ratn,
             "conformance_points": conf.get("points", 0),
             "bounds": meta.get("bounds", {}).get(tier, meta.get("bounds", {})),
             "outside_claim": meta.get("outside", []),
@@ -372,7 +379,11 @@ def main(argv=None):
 
     print(f"[{pid}/{tier}] items={len(items)} paths={agg['paths']} queries={agg['queries']} proved={n_proved} "
           f"inconclusive={n_inconc} errors={len(errors)} solver={agg['query_time_s']:.1f}s wall={wall:.1f}s "
-          f"cvc5x={cross}")
+          f"cvc5x={cross} ratnorm={ratn}")
+    slow.sort(reverse=True)
+    if os.environ.get("VERIF_SLOW"):
+        for dt, idx in slow[:8]:
+            print(f"  slow item {dt:.1f}s: {repr(items[idx])[:160]}")
     for k, v in known_hit.items():
         print(f"KNOWN-FINDING: property={pid} {k} (x{v['n']}; e.g. {v['replay']})")
     rc = 0
